@@ -544,13 +544,34 @@ def rule_zipname(ctx):
         raise AnalysisError("decompress: member open() of the zip archive not found")
     env2 = {de.params[0]: _Name((True, True, True))}
     # (the path on which the expected member is present; a fall-back to the ONLY member of a renamed archive does not change that)
-    ev2 = _path_eval(de, env2, lambda t: False if (t.startswith("not is_compression_format") or (" not in " in t and "len(" in t and "== 1" in t)) else None)
+    def truth_r(t):
+        t = str(t).replace('"', "'")
+        if t.startswith("not is_compression_format") or (" not in " in t and "len(" in t and "== 1" in t):
+            return False
+        if t.endswith(" == 'zip'") and " " not in t[:-len(" == 'zip'")]:
+            return True         # the member is opened on the zip path
+        if t.endswith(" != 'zip'") and " " not in t[:-len(" != 'zip'")]:
+            return False
+        return None
+    ev2 = _path_eval(de, env2, truth_r)
     rv = ev2(member[1])
     want = _Name((False, True, False))
-    ctx.ob("compress_as.arcname", wv == want, "member written = %s -> %s" % (norm(arc[1]), _show(wv)),
-           "base name of the target without directory and without the compression suffix",
+    # a reader that falls back to the ONLY member of the archive finds whatever single member the writer stored: the names then only
+    # have to agree for archives the reader's fall-back does not cover (none: compress_as writes exactly one member)
+    mname0 = member[1].id if isinstance(member[1], ast.Name) else None
+    has_fallback = False
+    if mname0 is not None:
+        for d_ in dflow.defs(mname0, member[0]):
+            if isinstance(d_, ast.Assign):
+                src_ = dflow.resolve(d_.value, at=d_, depth=2)
+                if "namelist()" in str(norm(src_)) or "infolist()" in str(norm(src_)):
+                    has_fallback = True
+    one_member = len([c_ for c_ in calls_in(ca.node, "write") if any(k_.arg == "arcname" for k_ in c_.keywords)]) == 1
+    covered = has_fallback and one_member
+    ctx.ob("compress_as.arcname", wv == want or covered, "member written = %s -> %s%s" % (norm(arc[1]), _show(wv), "  [reader falls back to the only member]" if covered and wv != want else ""),
+           "base name of the target without directory and without the compression suffix (or any name, when the reader opens the only member of the archive)",
            node=arc[0], func=ca)
-    ctx.ob("decompress.member", rv == want, "member opened = %s -> %s" % (norm(member[1]), _show(rv)),
+    ctx.ob("decompress.member", rv == want or (covered and wv != want), "member opened = %s -> %s" % (norm(member[1]), _show(rv)),
            "base name of the archive without directory and without the compression suffix (same as written)",
            node=member[0], func=de)
     # an archive that was RENAMED after it was written (FileSet.move without convert renames the file) keeps the old member name: the
